@@ -56,6 +56,8 @@ var flavours = map[string]flavourDef{
 	// collector overwrites every object it frees, so memory that is still in use through a pointer the
 	// collector cannot see - a uintptr, a forged slice header - changes under its user)
 	"gcstress": {"vh-gcstress", nil, "go"},
+	// the library's observation hooks (build tag verif, see MANIFEST.hooks) compiled in
+	"hooks": {"vh-hooks", []string{"-tags", "verif"}, "go"},
 }
 
 func harnessDir() string { return filepath.Join(verifRoot, "harness") }
